@@ -40,6 +40,10 @@ type C07Op struct {
 	// top directory's own entry list, and so its mtime, stays as it was)
 	ReuseDirOf int `json:"reuse_dir_of,omitempty"`
 	Extra      int `json:"extra,omitempty"`
+	// EditInPlace (with ReuseDirOf): instead of adding a file, the first file of that directory
+	// is overwritten by its same-length variant and keeps its modification time (an edit within
+	// one tick of a coarse file-system clock, cp -p, rsync -t): a clock fault
+	EditInPlace bool `json:"edit_in_place,omitempty"`
 }
 
 type C07Proc struct {
@@ -51,6 +55,8 @@ type C07Scenario struct {
 	Source string    `json:"source"` // generated | fixtures
 	Files  []SrcFile `json:"files"`
 	Procs  []C07Proc `json:"procs"`
+	// Variants > 0: Files[Variants+i] is the same-length variant of Files[i] (its class name ends in q)
+	Variants int `json:"variants,omitempty"`
 	// Models: synthetic call models (as in C03/C04) for the "generate a graph twice" clause; the
 	// project's own model rarely has deep caller chains
 	Models [][]MClass `json:"models,omitempty"`
@@ -155,6 +161,7 @@ func genHistory(t *tape.Tape, nFiles int, thorough bool, passes []string) []C07P
 						if proc.Ops[k].Pass == op.Pass && proc.Ops[k].ReuseDirOf == 0 && !already {
 							op.ReuseDirOf = k + 1
 							op.Extra = t.Pick(nFiles)
+							op.EditInPlace = t.Bool(1, 3)
 							op.ArgForm = proc.Ops[k].ArgForm
 							op.Noise = 0
 							break
@@ -202,6 +209,30 @@ func (C07) Generate(t *tape.Tape, tier string) interface{} {
 	sc.Procs = genHistory(t, len(sc.Files), thorough, []string{"ident", "full", "bs", "api", "ident", "full", "bs", "api", "call", "rcall", "call", "rcall"})
 	for i := 0; i < 2; i++ {
 		sc.Models = append(sc.Models, genModel(t, thorough))
+	}
+	// same-length variants of every file, when some operation edits a file in place
+	needVariants := false
+	for _, p := range sc.Procs {
+		for _, op := range p.Ops {
+			if op.EditInPlace {
+				needVariants = true
+			}
+		}
+	}
+	if needVariants && sc.Source == "generated" {
+		n := len(sc.Files)
+		sc.Variants = n
+		for i := 0; i < n; i++ {
+			f := sc.Files[i]
+			base := strings.TrimSuffix(filepath.Base(f.Path), ".java")
+			v := f
+			// the variant keeps the logical id: it IS that file after an edit
+			if len(base) > 1 && !strings.HasSuffix(base, "q") {
+				nb := base[:len(base)-1] + "q"
+				v.Text = strings.ReplaceAll(f.Text, base, nb)
+			}
+			sc.Files = append(sc.Files, v)
+		}
 	}
 	return sc
 }
@@ -713,7 +744,17 @@ func (C07) Run(ctx *sim.RunCtx, data json.RawMessage) (*sim.Outcome, error) {
 				}
 			case "bs", "api":
 				dir := ""
-				if k := op.ReuseDirOf - 1; k >= 0 && k < len(dl) && dl[k].dir != "" && len(dl[k].files) > 0 && op.Extra < n && !excluded[op.Extra] {
+				if k := op.ReuseDirOf - 1; op.EditInPlace && sc.Variants > 0 && k >= 0 && k < len(dl) && dl[k].dir != "" && len(dl[k].files) > 0 && dl[k].files[0] < sc.Variants && countOf(dl[k].files, dl[k].files[0]) == 1 && !excluded[sc.Variants+dl[k].files[0]] && len(sc.Files[sc.Variants+dl[k].files[0]].Text) == len(sc.Files[dl[k].files[0]].Text) {
+					// the same directory again; its first file was edited in place, same size, same mtime
+					dir = dl[k].dir
+					first := dl[k].files[0]
+					vi := sc.Variants + first
+					fp := filepath.Join(dir, fmt.Sprintf("%02d_%s", 0, sc.Files[first].ID), "F"+sc.Files[first].ID+".java")
+					proc.Ops = append(proc.Ops, sim.Op{Op: "writeFile", Args: map[string]interface{}{"path": fp, "text": sc.Files[vi].Text, "preserve_mtime": true}})
+					files = append([]int{vi}, dl[k].files[1:]...)
+					d.files = files
+					out.Faults["file-edited-in-place-same-mtime"]++
+				} else if k := op.ReuseDirOf - 1; k >= 0 && k < len(dl) && dl[k].dir != "" && len(dl[k].files) > 0 && op.Extra < n && !excluded[op.Extra] {
 					// the same directory again, one file richer below its first sub-directory
 					dir = dl[k].dir
 					first := dl[k].files[0]
@@ -896,6 +937,16 @@ func (C07) Run(ctx *sim.RunCtx, data json.RawMessage) (*sim.Outcome, error) {
 	}
 	out.Sample = sample
 	return out, nil
+}
+
+func countOf(xs []int, x int) int {
+	c := 0
+	for _, v := range xs {
+		if v == x {
+			c++
+		}
+	}
+	return c
 }
 
 // generalise turns a concrete JSON path into a class-stable one (already index-free).
